@@ -163,7 +163,7 @@ func (r *RNG) ViewBox() ivg.ViewBox {
 type ProgOpts struct {
 	Wild      bool // numbers from every float class (else moderate finite coordinates)
 	Arcs      bool
-	Reset     int  // 0: never, 1: always first, 2: random
+	Reset     int // 0: never, 1: always first, 2: random
 	MaxPaths  int
 	MaxRun    int  // maximal run length of one verb
 	Histories bool // insert rc/rn/bytes/hires ops
